@@ -27,7 +27,7 @@ PROP = {
     "level_note": "Trusted: Coq kernel + vm_compute; the hand transcription Quarantine/Quarantine.v (tied to the code only by the correspondence run, bounded by its generators); the Go harness' projection; the forked bank, the marker send restriction as modelled (restricted markers without required attributes / deny list / transfer agents; the holder is a required-attribute bypass address: wiring obligation), the sanction restriction (pass-through) and tx rollback as modelled. The first six theorems assume the holder module address signs nothing (signer_ok); the property checker's acceptance ledger is not proved sound on the model. No axioms.",
     "technique": "Coq proof over all histories (induction over fold_left step) of a Gallina model + differential correspondence and property checker evaluated in Coq on observations of the real handlers",
     "coq_files": ["Quarantine/Quarantine.v", "Proofs/QuarantineProofs.v", "Proofs/QuarantineConservation.v", "Proofs/QuarantineIndex.v", "Proofs/QuarantineSteps.v", "Proofs/QuarantineTransfers.v", "Proofs/QuarantineLiveness.v", "Proofs/QuarantineHistories.v", "Proofs/QuarantineCollision.v", "Corr/CorrBase.v", "Corr/C07.v"],
-    "rule": "a case is one history of 10-40 operations over 4-5 funded accounts, a stranger and the holder, 2-3 denoms of which each but the first is in 3/4 of the histories a RESTRICTED marker coin (active marker created in the history, Access_Transfer for at least two and usually all but one of the accounts; restricted coins are withdrawn from the marker), after a random genesis (opt-ins, auto-responses, 0-3 records of 1-3 senders, holder funded exactly or with a surplus) loaded by the real InitGenesis; operations: MsgOptIn/OptOut, MsgSend (also to the holder, to itself, to a stranger; over-balance and malformed coins; restricted coins from senders with and without Transfer access), MsgMultiSend 1..3 outputs (repeated receivers, mismatching totals), BankKeeper.InputOutputCoinsProv with 2-3 inputs, MsgAccept/MsgDecline naming all / a subset / accepted / foreign / duplicate / unknown senders, one sender 3-5 times alone or mixed with others (temporary and permanent); account addresses of 20, 32, 33, 40 and 255 bytes as senders and receivers (4-5 of six per history, pairwise different in their first 32 bytes); when known_findings.json lists quarantine-record-key-truncation-collision (or VERIF_C07_COLLIDE=1) every eighth history adds a second 40-byte sender sharing 32 bytes with the first, or a 33-byte sender starting with the 32-byte account, plus the scripted sequence send L1, send L2, accept [L2], accept [L1,L2], MsgUpdateAutoResponses (incl. an invalid enum); in 70 % of the histories with a multi-sender genesis record a scripted sequence on it (accept A, decline B, decline A, accept B, accept A and two variants) is interleaved with the random operations; a history is non-trivial when at least one transfer was quarantined and at least one record was paid out; distinct = distinct operation sequences",
+    "rule": "a case is one history of 10-40 operations over 4-5 funded accounts, a stranger and the holder, 2-3 denoms of which each but the first is in 3/4 of the histories a RESTRICTED marker coin (active marker created in the history, Access_Transfer for at least two and usually all but one of the accounts; restricted coins are withdrawn from the marker), after a random genesis (opt-ins, auto-responses, 0-3 records of 1-3 senders, holder funded exactly or with a surplus) loaded by the real InitGenesis; operations: MsgOptIn/OptOut, MsgSend (also to the holder, to itself, to a stranger; over-balance and malformed coins; restricted coins from senders with and without Transfer access), MsgMultiSend 1..3 outputs (repeated receivers, mismatching totals), BankKeeper.InputOutputCoinsProv with 2-3 inputs, MsgAccept/MsgDecline naming all / a subset / accepted / foreign / duplicate / unknown senders, one sender 3-5 times alone or mixed with others (temporary and permanent); account addresses of 20, 32, 33, 40 and 255 bytes as senders and receivers (4-5 of six per history, pairwise different in their first 32 bytes); every eighth history adds a second 40-byte sender sharing 32 bytes with the first, or a 33-byte sender starting with the 32-byte account, plus the scripted sequence send L1, send L2, accept [L2], accept [L1,L2], MsgUpdateAutoResponses (incl. an invalid enum); in 70 % of the histories with a multi-sender genesis record a scripted sequence on it (accept A, decline B, decline A, accept B, accept A and two variants) is interleaved with the random operations; a history is non-trivial when at least one transfer was quarantined and at least one record was paid out; distinct = distinct operation sequences",
     "assumptions": ["the quarantine funds holder is a module address without a key: it signs no message (signer_ok)",
                     "accounts carry no locked coins, denoms are send-enabled and nobody is sanctioned; marker denoms are active restricted markers without required attributes, send-deny entries or transfer agents (the marker restriction is modelled for these), every other denom has no marker: the bank's other send restrictions pass the transfer through unchanged",
                     "record suffix hash (SHA-256 of the sorted senders) is collision-free: the model keys multi-sender records by the sorted sender list and single-sender records by the first 32 bytes of the sender (createRecordSuffix)",
